@@ -20,7 +20,7 @@ REQUIRED_THEOREMS = [
     "Acn.C11.len_empty_last", "Acn.C11.heap_len_empty_last", "Acn.C11.restore_equiv",
     "Acn.C11.restore_continue", "Acn.C11.wire_faithful",
 ]
-BUDGET = {"quick": 2500, "thorough": 30000, "search": 20000}
+BUDGET = {"quick": 2500, "thorough": 30000, "search": 3000}
 TRUSTED = [
     "CPython list.append/list.pop/indexing and tuple/int comparison (the heap ALGORITHM of heapq is "
     "transcribed and proved, not trusted; the C accelerator _heapq is assumed to be the algorithm of "
